@@ -101,6 +101,15 @@ func gen(seed uint64, tier string) Scenario {
 	if r.Bool(0.2) {
 		sc.StartSeq = uint16(r.Intn(65536))
 	}
+	if x := core.HS(seed, "c17.autoreader", "", 0); x%100 < 12 {
+		for i := range sc.Readers {
+			if sc.Readers[i].Transport == "udp" && sc.Readers[i].PauseUS == 0 {
+				sc.Readers[i].Transport = "auto"
+				sc.Readers[i].StartUS = 0 // the fall-back must happen while the stream still runs
+				break
+			}
+		}
+	}
 	if x := core.HS(seed, "c17.avpreader", "", 0); sc.Source == "stream" && x%100 < 20 {
 		sc.AVPReader = true
 	}
@@ -171,7 +180,7 @@ func run(t *testing.T, sc Scenario) *core.Result {
 	var summary map[string]any
 	res := sys.Run(t, opts, func(w *sys.World) {
 		w.ProbeInit("roc_advanced_during_run", "late_joiner_after_wrap", "tampered_rejected", "packets_delivered", "udp_reader", "tcp_reader", "publisher_source",
-			"rtcp_app_delivered", "multi_format_media", "plain_profile_reader_inside_tls", "plain_profile_reader_playing", "wire_bytes_scanned", "srtp_wrap_before_first_packet_waived")
+			"rtcp_app_delivered", "multi_format_media", "plain_profile_reader_inside_tls", "plain_profile_reader_playing", "auto_protocol_fallback_reader", "auto_reader_got_packets_over_tcp", "wire_bytes_scanned", "srtp_wrap_before_first_packet_waived")
 		srvNode := w.Net.Node("srv", "10.0.0.1")
 		h := sys.NewHandler(w)
 		srv := &gortsplib.Server{RTSPAddress: "10.0.0.1:8554", UDPRTPAddress: "10.0.0.1:8000", UDPRTCPAddress: "10.0.0.1:8001", Handler: h,
@@ -436,6 +445,14 @@ func run(t *testing.T, sc Scenario) *core.Result {
 					p = gortsplib.ProtocolUDP
 				}
 				c := &gortsplib.Client{Scheme: "rtsps", Host: "10.0.0.1:8554", Protocol: &p, TLSConfig: sys.ClientTLSConfig()}
+				if spec.Transport == "auto" {
+					// automatic protocol behind a firewall that drops every datagram: the client starts with
+					// UDP, sees nothing, and falls back to TCP on its own - still with the secure profile
+					c.Protocol = nil
+					c.InitialUDPReadTimeout = time.Duration(sc.Packets*sc.IntUS/6)*time.Microsecond + 5*time.Millisecond + 211
+					w.Net.BlackholeUDPTo(name)
+					w.Probe("auto_protocol_fallback_reader")
+				}
 				sys.WireClient(c, node, w.Net, aboveTLS)
 				c.OnPacketsLost = func(uint64) {}
 				c.OnDecodeError = func(err error) {
@@ -501,6 +518,9 @@ func run(t *testing.T, sc Scenario) *core.Result {
 						return
 					}
 					rs.last[k] = cnt
+					if spec.Transport == "auto" && len(rs.last) == 1 && rs.n == 0 {
+						w.Probe("auto_reader_got_packets_over_tcp")
+					}
 					if rs.got[k] == nil {
 						rs.got[k] = map[int]bool{}
 					}
